@@ -201,28 +201,30 @@ def run(ctx, rep):
     for d in errs:
         cds = conditions(pe, d[1], sl)
         is_err = [cd for cd in cds if cd.kind == 'variant' and cd.outcome == frozenset({'Err'}) and strip(cd.subject)[0] == 'call' and strip(cd.subject)[1] == 'std::fs::read_dir']
-        ne = [cd for cd in cds if cd.kind == 'bool' and cd.value[0] == 'call' and cd.value[1] in ('std::cmp::PartialEq::ne', 'std::cmp::PartialEq::eq')]
-        if is_err and ne:
-            cd = ne[-1]
-            want = cd.outcome is True if cd.value[1].endswith('::ne') else cd.outcome is False
-            rhs = strip(cd.value[2][1])
-            lhs = strip(cd.value[2][0])
-            good = want and rhs[0] == 'agg' and rhs[2] == 'NotFound' and lhs[0] == 'call' and lhs[1] == 'std::io::Error::kind'
-            # every way from the Err arm to a success return goes through that comparison
+        # the NotFound test: `err.kind() == NotFound` / `!=` / `matches!(err.kind(), NotFound)`
+        nfs = []
+        for cd in cds:
+            if cd.kind == 'bool' and cd.value[0] == 'call' and cd.value[1] in ('std::cmp::PartialEq::ne', 'std::cmp::PartialEq::eq'):
+                rhs, lhs = strip(cd.value[2][1]), strip(cd.value[2][0])
+                is_nf = cd.outcome is False if cd.value[1].endswith('::ne') else cd.outcome is True
+                shape = rhs[0] == 'agg' and rhs[2] == 'NotFound' and lhs[0] == 'call' and lhs[1] == 'std::io::Error::kind'
+                nfs.append((cd, shape, is_nf, '%s vs %s' % (vstr(lhs)[:60], vstr(rhs)[:40])))
+            elif cd.kind == 'variant' and (cd.enum or '').endswith('io::ErrorKind') and strip(cd.subject)[0] == 'call' and strip(cd.subject)[1] == 'std::io::Error::kind':
+                nfs.append((cd, True, cd.outcome == frozenset({'NotFound'}), 'kind() in %s' % sorted(cd.outcome)))
+        if is_err and nfs:
+            cd, shape, is_nf, detail = nfs[-1]
+            # this Err result is produced on the not-NotFound side, and every way from the Err arm to a success return
+            # goes through that test
             through = all(to[1] not in pe.reachable(is_err[-1].target, stop=[cd.sw_bb]) or to[1] == cd.sw_bb for to in oks)
-            tol_ok = good and through
-            detail = '%s vs %s' % (vstr(lhs)[:60], vstr(rhs)[:40])
+            tol_ok = shape and (not is_nf) and through
     rep.check(tol_ok, 'R4', 'listing-tolerance', pw, 'a failed listing is tolerated only for ErrorKind::NotFound', 'listing error tolerance is not NotFound-only (%s)' % detail)
     gp = prog.fn('<libcnb::generic::GenericPlatform as libcnb::platform::Platform>::from_path')
     rep.analysed(gp)
-    v = strip(sl.local(gp, 0))
-    ok = v[0] == 'call' and v[1].endswith('Result::<T, E>::map') and strip(v[2][0])[0] == 'call' and strip(v[2][0])[1] == pe.path and strip(strip(v[2][0])[2][0])[0] == 'param'
-    if ok:
-        cl = strip(v[2][1])
-        body = prog.fns.get(cl[1]) if cl[0] == 'closure' else None
-        bv = strip(sl.local(body, 0)) if body else ('unknown',)
-        ok = bv[0] == 'agg' and dict(bv[3]).get('env', ('x',))[0] == 'param'
-    rep.check(ok, 'R4', 'generic-platform', '%s:%d' % (gp.file, gp.line), 'GenericPlatform::from_path = read_platform_env(dir).map(|env| Self{env})', 'GenericPlatform::from_path = ' + vstr(v)[:120])
+    v = sl.inline_deep(sl.mk_unwrap(sl.local(gp, 0), 1), keep=(pe.path,))
+    bv = strip(v)
+    ev = dict(bv[3]).get('env', ('unknown',)) if bv[0] == 'agg' and (bv[1] or '').endswith('GenericPlatform') else ('unknown',)
+    ok = ev[0] == 'unwrap' and strip(ev)[0] == 'call' and strip(ev)[1] == pe.path and strip(strip(ev)[2][0])[0] == 'param'
+    rep.check(ok, 'R4', 'generic-platform', '%s:%d' % (gp.file, gp.line), 'GenericPlatform::from_path = Ok(Self{env: read_platform_env(dir)?})', 'GenericPlatform::from_path = ' + vstr(v)[:120])
     # ---- R5 ------------------------------------------------------------------------------------------
     st_ok = False
     detail = 'store match not found'
